@@ -16,6 +16,9 @@ from laneflow.poly import Poly
 
 HDR = ('glm/glm.hpp', 'glm/ext.hpp', 'glm/ext/matrix_integer.hpp')
 CFG = Cfg('default', headers=HDR)
+CFG_SSE2 = Cfg('sse2', defines=('GLM_FORCE_INTRINSICS',), flags=('-msse2',), headers=HDR + ('glm/gtc/type_aligned.hpp',))
+CFG_AVX2 = Cfg('avx2', defines=('GLM_FORCE_INTRINSICS',), flags=('-mavx2', '-mfma'), headers=HDR + ('glm/gtc/type_aligned.hpp',))
+NEEDS_X86 = True
 
 
 def perm_sign(p):
@@ -139,16 +142,25 @@ def cases(tier):
         ftypes += [('float', 'mediump'), ('float', 'lowp'), ('double', 'mediump')]
     for T, Q in ftypes:
         cs += float_cases(T, Q)
+    # the aligned types of the SIMD configurations have their own inverse / determinant code (simd/matrix.h for mat4, the aligned branch of inv3x3 built on
+    # the SIMD cross product for mat3): the same definitions must hold there
+    cs += float_cases('float', 'aligned_highp', CFG_SSE2)
+    if tier == 'thorough':
+        cs += float_cases('float', 'aligned_mediump', CFG_SSE2)
+        cs += float_cases('float', 'aligned_highp', CFG_AVX2)
+        cs += float_cases('double', 'aligned_highp', CFG_AVX2)
     for T in (('int', 'uint') if tier == 'quick' else ('int', 'uint', 'int64', 'int16')):
         cs += int_cases(T)
     cs += canaries()
     return cs
 
 
-def float_cases(T, Q):
+def float_cases(T, Q, CFG=None):
     cs = []
+    CFG = CFG or globals()['CFG']
     sc = G.scalar(T)
-    tg = sc.tag + ('' if Q == 'highp' else '_' + Q)
+    tg = sc.tag + ('' if Q == 'highp' else '_' + Q) + ('' if CFG is globals()['CFG'] else '@' + CFG.name)
+    K = (lambda name, *a, **kw: globals()['K'](name + ('' if CFG is globals()['CFG'] else '_' + CFG.name), *a, **kw))
     for n in (2, 3, 4):
         mt = G.mat(n, n, T, Q)
         vt = G.vec(n, T, Q)
